@@ -35,6 +35,7 @@ pub struct RunResult {
     /// thread states at the end (for hang analysis)
     pub final_states: Vec<String>,
     pub epilogue_calls_from: usize,
+    pub names: std::collections::HashMap<usize, String>,
 }
 
 struct RtWrap {
@@ -90,6 +91,7 @@ fn thread_body(
                     g.next_gid += 1;
                     g.next_gid - 1
                 };
+                ctx.shared.lock().unwrap().bind(&h, gid, st);
                 ctx.slots.push(Slot { h: Some(h), gid, stream: st });
             };
             mk(&mut ctx, s);
@@ -338,24 +340,65 @@ pub fn run_scenario(sc: &Scenario, strat: &Strategy, seed: u64, budget: usize) -
         steps: g.total_steps,
         final_states,
         epilogue_calls_from: epi_from,
+        names: sh.names.clone(),
     }
 }
 
 /// Trace in the line protocol shared with the Lean driver.
-pub fn trace_text(trace: &[Rec]) -> String {
+pub fn trace_text(trace: &[Rec], names: &std::collections::HashMap<usize, String>) -> String {
     let mut out = String::new();
+    // objects allocated through alloc.rs get names by allocation order per type
+    let mut names = names.clone();
+    let mut counters: std::collections::HashMap<String, usize> = std::collections::HashMap::new();
+    let mut unknown = 0usize;
+    for r in trace {
+        if let Rec::Note { ev, .. } = r {
+            if ev.kind == Kind::Alloc {
+                let short = ev.what.rsplit("::").next().unwrap_or(ev.what).split('<').next().unwrap().to_string();
+                let c = counters.entry(short.clone()).or_insert(0);
+                if short == "ReaderGroup" {
+                    names.entry(ev.addr).or_insert(format!("grp.{}", *c));
+                }
+                *c += 1;
+            }
+        }
+    }
+    let mut nm = |a: usize| -> String {
+        if a == 0 {
+            return "-".to_string();
+        }
+        if let Some(n) = names.get(&a) {
+            return n.clone();
+        }
+        let n = format!("u.{}", unknown);
+        unknown += 1;
+        names.insert(a, n.clone());
+        n
+    };
     for r in trace {
         match r {
             Rec::Ev { tid, ev, res, ok } => {
+                let w = nm(ev.addr);
+                // pointer-valued words: translate values too
+                let (a, b, res) = if w == "readers" {
+                    (
+                        if ev.a == 0 { "0".to_string() } else { nm(ev.a) },
+                        if ev.b == 0 { "0".to_string() } else { nm(ev.b) },
+                        if *res == 0 { "0".to_string() } else { nm(*res) },
+                    )
+                } else {
+                    let a = if ev.kind == Kind::CvWait { nm(ev.a) } else { ev.a.to_string() };
+                    (a, ev.b.to_string(), res.to_string())
+                };
                 out.push_str(&format!(
                     "ev {} {} {} {} {} {} {} {} {} {}\n",
                     tid,
                     kind_str(ev.kind),
-                    ev.addr,
+                    w,
                     ord_str(ev.ord),
                     ord_str(ev.ord2),
-                    ev.a,
-                    ev.b,
+                    a,
+                    b,
                     res,
                     if *ok { 1 } else { 0 },
                     if ev.what.is_empty() { "-" } else { ev.what }
@@ -366,7 +409,7 @@ pub fn trace_text(trace: &[Rec]) -> String {
                     "note {} {} {} {} {} {}\n",
                     tid,
                     kind_str(ev.kind),
-                    ev.addr,
+                    nm(ev.addr),
                     ev.a,
                     ev.b,
                     if ev.what.is_empty() { "-".to_string() } else { ev.what.replace(' ', "") }
